@@ -255,12 +255,19 @@ Step(st, o, loose) == LET X == Strict(st, o, loose) IN X \cup EscapeOf(st, o, X)
 \* (observed sets arrive as sequences)
 ResMatch(r, obs) == /\ r.err = obs.err /\ r.rec = obs.rec /\ r.flag = obs.flag /\ r.cnt = obs.cnt /\ r.vh = obs.vh
                     /\ Range(obs.items) = r.items /\ Len(obs.items) = Cardinality(r.items)
-FeedMatch(x, s, obs) ==
+\* API feed items: a delete message carries the key only; alias = the backend hands out its live record objects
+\* (hashmap), so that a reply marshalled later by the API goroutine shows a later state of the same key: only the
+\* keys are compared there
+LazyProj(v, alias) == IF alias THEN [NoView EXCEPT !.k = v.k]
+                      ELSE IF v.del THEN [NoView EXCEPT !.k = v.k, !.del = TRUE] ELSE v
+FeedMatch(x, s, obs, alias) ==
     /\ obs.closed = x.feeds[s].closed
-    /\ IF s = x.lazyslot THEN IsSubSeq(obs.items, x.feeds[s].items)
+    /\ IF s = x.lazyslot
+       THEN IsSubSeq([j \in 1..Len(obs.items) |-> LazyProj(obs.items[j], alias)],
+                     [j \in 1..Len(x.feeds[s].items) |-> LazyProj(x.feeds[s].items[j], alias)])
        ELSE /\ Q!IsPrefix(obs.items, x.feeds[s].items)
             /\ Len(obs.items) >= MinOf(Len(x.feeds[s].items), FeedCap)
-FeedsMatch(x, obs) == \A s \in Slots : FeedMatch(x, s, obs[s])
+FeedsMatch(x, obs, alias) == \A s \in Slots : FeedMatch(x, s, obs[s], alias)
 CallsMatch(x, obs) == IF x.loosecalls THEN Q!IsPrefix(obs, x.calls) ELSE obs = x.calls
 StoreMatch(x, obs) == \A k \in Keys : obs[k] = x.st.store[k]
 
